@@ -83,6 +83,13 @@ def cases(tier, seed):
             out.append({'pop': True, 'pops': {'e': 2, 'i': 2}, 'tag': 'connectivity_kernels', 'seed': seed, 'spec': None,
                         'conns': [{'src': 'e', 'tgt': 'e', 'W': [[0.0, 2.0], [-0.5, 0.0]], 'delay': 1.0, 'spread': s1}, c2],
                         'vectorize': True, 'solver': 'euler'})
+    # Connectivity kernels together with run(dde_approx=n): a spread keeps its own order, plain delays get order n
+    for nda in (2, 3):
+        for (d1, s1), d2 in (((0.5, 0.2), 1.0), ((1.0, 0.5), 0.5), ((1.0, 0.70710678), 1.0)):
+            out.append({'pop': True, 'pops': {'e': 2, 'i': 2}, 'tag': 'connectivity_kernels_dde_approx', 'seed': seed, 'spec': None,
+                        'conns': [{'src': 'e', 'tgt': 'e', 'W': [[0.0, 2.0], [-0.5, 0.0]], 'delay': d1, 'spread': s1},
+                                  {'src': 'e', 'tgt': 'i', 'W': [[1.5, -0.5], [0.25, 2.0]], 'delay': d2}],
+                        'dde_approx': nda, 'vectorize': True, 'solver': 'euler'})
     # unit gain: constant source, long run
     for i in range(len(DS)):
         out.append({'spec': None, 'tag': 'gain', 'ds': list(DS[i]), 'vectorize': True, 'solver': 'euler'})
